@@ -59,6 +59,9 @@ func (S *LevelDbStore) GetCertRevocationStatus(issuer *pkix.RDNSequence, certSer
 	s := issuer.String() + "_" + certSerial.String()
 	hash := hashing.Sum64(s)
 	revokedCertBytes, err := S.Db.Get(hash, nil)
+	if err != nil && !errors.Is(err, leveldb.ErrNotFound) {
+		return nil, fmt.Errorf("could not read revocation status from store: %v", err)
+	}
 	revoked := false
 	var revokedCert *pkix.RevokedCertificate
 	if err == nil {
